@@ -576,6 +576,11 @@ def run(ctx):
     from .c02 import run_r9 as c02_r9
     r7 = ctx.rule("C01-R7", "no construction path installs a chunk size that is not provably positive: with chunk size 0 every parser ends cleanly after nothing (shared with C02-R9)", floor=2)
     c02_r9(ctx, r7)
+    # R8: the slice handed to the source is exactly one chunk behind the window, behind n <= chunk_size: a source that fills
+    # whatever it is offered (slices, files) and one that trickles must leave the reader in the same state (C02-R3)
+    from .c02 import run_r3 as c02_r3
+    r8 = ctx.rule("C01-R8", "the source is offered exactly chunk_size bytes behind the window on every read, so sources that fill the slice and sources that trickle are treated alike (shared with C02-R3)", floor=3)
+    c02_r3(ctx, r8)
     from .c09 import run_r1 as c09_r1
     r3 = ctx.rule("C01-R3", "Interrupted is handled only inside request_more, as a retry that touches no state (shared with C09-R1)", floor=8)
     c09_r1(ctx, r3)
